@@ -123,6 +123,41 @@ fn check_text_list(ctx: &Ctx, ts: &TextSetup, list: &[MNode], obs: &mut Obs, str
             obs.violation("text:word-misspelled", detail(&e, json!({"word_index": i, "word": w.word, "segment": model::render_list(seg)})));
             return false;
         }
+        // the word's nodes are the items of the font's compiled lig/kern program run over the word, one node per item
+        // (TeX §1034-§1040: every kern step appends a kern node, whatever its amount) - the runner itself is C05's subject
+        let run: Result<Vec<(u8, i64)>, _> = catch(|| {
+            ctx.program
+                .run(&w.word)
+                .map(|it| match it {
+                    tfm::ligkern::RunItem::Char(c) => (0u8, c as i64),
+                    tfm::ligkern::RunItem::Kern(k) => (1, k.0 as i64),
+                    tfm::ligkern::RunItem::Ligature(l) => (2, l.c as i64),
+                })
+                .collect()
+        });
+        if let Ok(run) = run {
+            let got: Vec<(u8, i64)> = seg
+                .iter()
+                .filter_map(|n| match n {
+                    MNode::Char { c, .. } => Some((0u8, *c as i64)),
+                    MNode::Kern { width, .. } => Some((1, *width as i64)),
+                    MNode::Lig { c, .. } => Some((2, *c as i64)),
+                    _ => None,
+                })
+                .collect();
+            if got != run {
+                obs.violation(
+                    "text:word-nodes-differ-from-the-lig-kern-run",
+                    detail("characters, ligatures and kerns of a word are not the items the compiled lig/kern program yields",
+                           json!({"word_index": i, "word": w.word, "segment": model::render_list(seg), "run_items(kind 0 char/1 kern/2 lig, value)": run})),
+                );
+                return false;
+            }
+            obs.count("text_words_compared_with_lig_kern_run");
+            if run.iter().any(|(k, v)| *k == 1 && *v == 0) {
+                obs.count("text_words_with_a_zero_kern");
+            }
+        }
         for n in seg.iter() {
             match n {
                 MNode::Lig { .. } => obs.count("text_ligatures"),
@@ -617,7 +652,11 @@ fn run_break<F: boxworks::FontRepo>(
 // phases
 
 fn text_case(rng: &mut Rng, obs: &mut Obs, fixed: Option<(TextSetup, BreakSetup)>) {
-    let ctx = match ctx() {
+    let zero_kerns = fixed.is_none() && rng.coin();
+    if zero_kerns {
+        obs.count("text_cases_with_zero_kerns_in_the_font");
+    }
+    let ctx = match if zero_kerns { ctx_zero_kerns() } else { ctx() } {
         Ok(c) => c,
         Err(e) => {
             obs.inconclusive(format!("font context: {e}"));
